@@ -379,6 +379,10 @@ pub fn phase(args: &Args, master: &Path) -> Report {
         if args.thorough { "{10,100,1000,5000}" } else { "{10,100,1000}" },
         KINDS
     );
+    let r3 = crate::rmarg::run_all(args, master);
+    r.merge(r3);
+    r.rule.push_str(" ");
+    r.rule.push_str(&crate::rmarg::rule());
     r.bound("cases", n);
     r.bound("max_nodes", maxn);
     r.bound("max_depth", 3);
